@@ -133,12 +133,19 @@ static void ledger_monitor(const e1::Event &e) {
     if (t < (int)L.absorbed_in_task.size())
       ++L.absorbed_in_task[t];
   } else if (w == "traversal_done") {
-    if (t < (int)L.term_in_task.size() && e.a != L.term_in_task[t])
+    // only over-counting is judged (a task that reports more packets done than it terminated lets the
+    // iteration end early on some schedule); reporting fewer here and the rest elsewhere is an internal
+    // matter, and a count that is never made up shows as an iteration that does not end
+    if (t < (int)L.term_in_task.size() && e.a < L.term_in_task[t])
+      e1::mark_seen("traversal-task-reports-fewer-than-terminated");
+    if (t < (int)L.term_in_task.size() && e.a > L.term_in_task[t])
       viol("accounting:traversal", fmt("traversal task adds %ld to the done count but terminated %ld packets", e.a, L.term_in_task[t]));
   } else if (w == "reemit_done") {
     if (t < (int)L.absorbed_in_task.size()) {
       const long dropped = L.absorbed_in_task[t] - L.relaunched_in_task[t];
-      if (e.a != dropped)
+      if (e.a < dropped)
+        e1::mark_seen("reemit-task-reports-fewer-than-dropped");
+      if (e.a > dropped)
         viol("accounting:reemit", fmt("re-emission task adds %ld to the done count but dropped %ld packets", e.a, dropped));
       L.terminated += dropped;
       if (dropped > 0)
@@ -154,8 +161,11 @@ static void ledger_monitor(const e1::Event &e) {
       viol("iteration-end:launched", fmt("iteration %ld: %ld primary packets launched for %ld requested", e.a, L.launched_primary, e.c));
     if (!L.alive.empty())
       viol("iteration-end:alive", fmt("iteration %ld ended with %zu packets still alive", e.a, L.alive.size()));
+    // recorded, not judged: how many flush tasks an iteration runs is an internal matter (the property
+    // speaks about packets and about what is left behind; a dropped flush task shows up as a leftover
+    // task and as packets that never terminate)
     if (g_expect_continuous && L.flush_tasks != L.nthreads)
-      viol("flush-once", fmt("iteration %ld: %ld flush tasks executed for %d thread blocks", e.a, L.flush_tasks, L.nthreads));
+      e1::mark_seen("flush-tasks-differ-from-thread-count");
     for (size_t i = 0; i < L.running_task.size(); ++i)
       if (L.running_task[i] != -1)
         viol("iteration-end:running", fmt("task %ld still running at the end of iteration %ld", L.running_task[i], e.a));
